@@ -71,6 +71,30 @@ CHECKS = {
 
 BUILT_LATER = {}
 
+PURITY_TECH = " + purity monitor (same call repeated in reverse / shuffled order and from 16..32 goroutines on shared objects must give the first outcome) with Go race detector shards"
+PURITY_TEXT = " A sample of the calls is additionally repeated on shared objects in other orders and concurrently, in the plain build and in a -race build: outcomes must not depend on history or on concurrent use, and the race detector must report nothing in go-ucan code."
+# id -> (technique suffix, text suffix): added in later sessions
+EXTRA = {
+ "C01": ("", " Chains of up to 48 links, and history independence: the same invocation token checked with the full loader, a depleted loader and the full loader again."),
+ "C02": ("", " The lattice also holds an empty inner segment and two letters that Unicode case folding identifies; a scale family runs chains of up to 48 links over commands of up to 40 long / non-ASCII segments with zero or one widening link."),
+ "C03": ("", " Policies of up to 130 statements per link, chains of up to 40 links, look-alike twin statements (100 vs 100.0, 5 vs \"5\") of which one is false, heterogeneous quantified lists, and the same delegation objects matched against satisfying / violating / satisfying invocations in turn."),
+ "C04": ("", " Probes are repeated in other time zones; hand-signed payloads carry every delicate timestamp; chains of up to 40 links; not-before bounds more than 292 years ahead."),
+ "C05": ("", " Also chains of up to 48 links, deep / long / non-ASCII commands, 130-statement policies, a principal occurring three times, expirations more than 292 years ahead, every chain checked twice and through a second invocation."),
+ "C06": (" + concurrent decoding of genuine and forged tokens (plain and -race build, race detector)", " 16..32 goroutines decode genuine tokens and same-length rewrites with the old signature (up to 2 MiB payloads) at once: no forged token may come out and the race detector must stay silent."),
+ "C07": (PURITY_TECH, PURITY_TEXT),
+ "C08": ("", " CARs naming a block by a foreign-form CID of the same bytes must still file the token under its true CID; CIDs are compared under data-with-EOF, 1-byte and half-read streams."),
+ "C09": ("", " Repetition bombs (runs of zero-length CAR sections, millions of empty container entries / CBOR chunks / JSON whitespace / wide policies / selector marks, wide signed args, meta and policies up to 24 MiB) run next to the depth bombs, and small nested-quantifier policies run under the CPU budget."),
+ "C11": (PURITY_TECH, " A numeric grid compares every comparison kind over every ordered pair of 45 delicate integers and floats (around 2^53, 2^62, the ends of int64 and float64)." + PURITY_TEXT),
+ "C12": (PURITY_TECH, " One parsed selector is resolved against series of values of different lengths and compared with freshly parsed ones." + PURITY_TEXT),
+ "C13": (PURITY_TECH, " 29 characters that are special in other pattern languages or text handling (line feed, NUL, regular-expression and shell metacharacters) are each swept exhaustively, and subjects beyond 4 KiB are matched against patterns of up to 40 wildcards." + PURITY_TEXT),
+ "C14": (PURITY_TECH, PURITY_TEXT),
+ "C15": (PURITY_TECH, " All pairs over segments that differ only up to a normalisation (case folding, NFC/NFD, width, percent-encoding) and about 2000 runes on which the readings of 'upper-case' agree." + PURITY_TEXT),
+ "C16": (PURITY_TECH, " Fabricated RSA public keys of 10 modulus lengths x 7 public exponents." + PURITY_TEXT),
+ "C17": (PURITY_TECH, " Set cardinalities across the framing thresholds (24, 256, 65536 entries) with a corruption planted in the last entry, CAR section sizes swept around every power of two, foreign-form section CIDs." + PURITY_TEXT),
+ "C18": ("", " Seven kinds of reader fault (generic, io.ErrUnexpectedEOF, closed pipe, deadline, cancellation, no progress, wrapped errno) incl. a fault after the last byte was delivered, streams interleaving (0, nil) reads, and writers that accept fewer bytes than offered without reporting an error."),
+ "C19": (PURITY_TECH, " Entropy-source faults, keys derived from the right key by truncation / extension." + PURITY_TEXT),
+}
+
 def main():
     props = [json.loads(l) for l in open(os.path.join(ROOT, "properties.jsonl"))]
     checks = []
@@ -79,6 +103,9 @@ def main():
         pid = p["id"]
         if pid in CHECKS:
             level, tech, text, note, ref = CHECKS[pid]
+            if pid in EXTRA:
+                tech += EXTRA[pid][0]
+                text += EXTRA[pid][1]
             checks.append({
                 "property_id": pid,
                 "quick_cmd": f"bin/check {pid} quick",
@@ -105,7 +132,7 @@ def main():
         "engines": [{
             "name": "vcheck", "path": "harness/cmd/vcheck",
             "serves_properties": sorted(CHECKS),
-            "kind_free_text": "Go supervisor + child-process workers: generated/hostile/fault-injected workloads against the real go-ucan code (compiled from /repo's working tree through a replace directive), reference-model / metamorphic / fault-enumeration oracles, Go race detector builds for C20 and C09",
+            "kind_free_text": "Go supervisor + child-process workers: generated/hostile/fault-injected workloads against the real go-ucan code (compiled from /repo's working tree through a replace directive), reference-model / metamorphic / fault-enumeration oracles, Go race detector builds (every property's check may run -race shards: C06, C07, C09, C11-C17, C19, C20 do)",
         }],
         "checks": checks,
         "not_applicable": na,
